@@ -416,6 +416,11 @@ func (d *simDag) Get(ctx context.Context, c cid.Cid) (ipld.Node, error) {
 	w.mu.Lock()
 	if data, ok := p.blocks[bkey(c)]; ok {
 		w.mu.Unlock()
+		// a local read: a gate point for the driver too (a slow disk); a read under a context that is done fails
+		TheHub.at("sim.get", p, c, ctx)
+		if err := ctx.Err(); err != nil {
+			return nil, err
+		}
 		return decodeBlock(c, data)
 	}
 	w.mu.Unlock()
